@@ -1200,8 +1200,11 @@ class ModelBuilder:
                     return None
             return current  # type: ignore[return-value]
         else:
-            # Search from project root
-            for task in project.tasks:
+            # Search from project root. project.tasks lists nested tasks as well: a root-level
+            # task with that id is what the path denotes; only if there is none, fall back to
+            # the first task with that id at any level (lenient, some project files rely on it)
+            candidates = [task for task in project.tasks if task.parent is None] + list(project.tasks)
+            for task in candidates:
                 if task.id == parts[0]:
                     if len(parts) == 1:
                         return task  # type: ignore[return-value]
